@@ -757,6 +757,13 @@ impl Ctx {
             eprintln!("MACHINERY-ERROR cannot write evidence: {e}");
             std::process::exit(2);
         }
+        // <id>.json is the latest run of either tier; a per-tier copy keeps the record of the last
+        // thorough run when a quick run follows it
+        let _ = std::fs::create_dir_all(ev_dir.join("by-tier"));
+        let _ = std::fs::write(
+            ev_dir.join("by-tier").join(format!("{}.{}.json", self.prop, self.tier.name())),
+            serde_json::to_string_pretty(&ev).unwrap(),
+        );
         println!(
             "SUMMARY property={} tier={} evaluations={} distinct_nontrivial={} classes={} \
              exhaustive={} known_findings={} new_violations={} wall_s={:.1}",
